@@ -117,6 +117,15 @@ Print Assumptions C14_every_margin_row_is_the_aggregate.
 Print Assumptions C14_ordinary_rows_unchanged.
 Print Assumptions C14_every_requested_margin_is_there.
 
+(* the aggregation hypotheses are satisfiable: integer addition (sum, count and size margins) *)
+Theorem C14_sum_margins_instance n levels D : concrete n D -> NoDup (map fst D) ->
+  forall k v, In (k, v) (add_row_margin Z.add n levels D) -> v = total Z.add 0 k D.
+Proof.
+  intros Hc Hn k v Hin.
+  exact (proj1 (C14_every_margin_row_is_the_aggregate Z.add 0 Z.add_assoc Z.add_comm Z.add_0_l n levels D Hc Hn k v Hin)).
+Qed.
+Print Assumptions C14_sum_margins_instance.
+
 (* Tie B: the statements of core.add_row_margin are the ones the model reads, on this run *)
 Theorem C14_add_row_margin_is_the_source's : gen_add_row_margin = add_row_margin_source.
 Proof. exact tie_add_row_margin. Qed.
